@@ -70,7 +70,7 @@ MaxKeys == 2 * T - 1
 
 ASSUME T >= 2 /\ NPP >= 1 /\ CPP >= 1
 
-Upd(f, k, v) == [x \in DOMAIN f \cup {k} |-> IF x = k THEN v ELSE f[x]]
+Upd(f, k, v) == (k :> v) @@ f          \* (TLC evaluates @@ natively: the maps here have hundreds of entries)
 Del(f, K)    == [x \in DOMAIN f \ K |-> f[x]]
 InsAt(q, i, x) == SubSeq(q, 1, i - 1) \o <<x>> \o SubSeq(q, i, Len(q))     \* x becomes element i
 DelAt(q, i)    == SubSeq(q, 1, i - 1) \o SubSeq(q, i + 1, Len(q))
